@@ -33,6 +33,10 @@ def generate(rng, tier='quick', stack=None, focus='general', **kw):
     return generate_c09(rng, tier, stack, **kw)
   if focus == 'burst':
     return generate_burst(rng, tier, stack, **kw)
+  if focus == 'general' and stack == 'mux' and rng.random() < 0.04:
+    return generate_blocked_first(rng, tier, **kw)
+  if focus == 'general' and rng.random() < 0.04:
+    return generate_open_race(rng, tier, stack, **kw)
   stack = stack or rng.choice(['thrift', 'mux'])
   big = tier != 'quick'
   n_eps = rng.choice([1, 1, 2, 2, 3, 4] if not big else [1, 2, 3, 4, 5, 6])
@@ -79,7 +83,7 @@ def generate(rng, tier='quick', stack=None, focus='general', **kw):
   scn['net'] = {'chunk': rng.choice(['none', 'some', 'some', 'bytes']),
                 'jitter': rng.choice([0.0, 0.0002, 0.001]),
                 'dns_multi': rng.random() < 0.1}
-  scn['loop'] = {'batch_break': rng.random() < 0.3}
+  scn['loop'] = {'batch_break': rng.choice([False, False, False, False, False, True, True, 0.02, 0.1, 0.3])}
   if rng.random() < 0.1:
     # a stalled process: the clock jumps forward between loop iterations; the
     # deadline clauses of C01 are not evaluated in these runs
@@ -186,6 +190,17 @@ def generate(rng, tier='quick', stack=None, focus='general', **kw):
       if opk == 'connect':
         d['index'] = None
       directives.append(d)
+    if late_heavy and rng.random() < 0.4:
+      # back-pressure: one of the first request frames of a connection blocks
+      # half-way for longer than the short timeouts of these scenarios, so a
+      # deadline fires while that very frame is being written
+      directives.append({'ep': None, 'conn': 0, 'op': 'send', 'index': None, 'nth': rng.choice([2, 2, 3, 4, 5]),
+                         'kind': 'block', 'arg': rng.choice([0.2, 0.5])})
+      # ... and some of the other calls are patient enough to see what arrives afterwards
+      for o in ops:
+        if rng.random() < 0.4:
+          o['timeout'] = rng.choice([0.5, 1.0, 2.0])
+          o['svc'] = {'delay': rng.choice([0.001, 0.01, 0.05])}
     if rng.random() < 0.25:
       # down at first connect
       ep = rng.randrange(n_eps)
@@ -207,6 +222,76 @@ def generate(rng, tier='quick', stack=None, focus='general', **kw):
   faults.sort(key=lambda f: f['t'])
   scn['faults'] = faults
   scn['directives'] = directives
+  return scn
+
+
+def generate_blocked_first(rng, tier='quick', **kw):
+  """ThriftMux under back-pressure right after connecting: the very first
+  request frame blocks half-way for longer than its call's timeout; it reaches
+  the server late and is answered later still, while patient calls issued after
+  the write completed are waiting on the same connection."""
+  T = rng.choice([0.03, 0.05, 0.1])
+  block = rng.choice([0.2, 0.5])
+  scn = {'world': 'w_stack', 'stack': 'mux', 'balancer': rng.choice(['aperture', 'heap']), 'focus': 'general',
+         'iface': 'sim', 'client_id': None, 'eps': [{'latency': rng.choice([0.0005, 0.003]), 'mode': 'up'}]}
+  cfg = {'timeout': 2.0, 'open_timeout': None,
+         'resurrector': {'initial_wait_interval': 5, 'max_wait_interval': 30, 'backoff_exponent': 1.5},
+         'members_dynamic': False, 'get_servers_delay': 0, 'init_failures': 0,
+         'tag_base': rng.choice([None, None, 250, 65530]), 'answer_discards': rng.random() < 0.5, 'adversarial': False}
+  if scn['balancer'] == 'aperture':
+    cfg['aperture'] = {'min_size': 1, 'max_size': 2 ** 31, 'min_load': 0.5, 'max_load': 2.0,
+                       'jitter_min_sec': 0, 'jitter_max_sec': 240}
+  scn['cfg'] = cfg
+  scn['net'] = {'chunk': rng.choice(['none', 'some']), 'jitter': 0.0, 'dns_multi': False}
+  scn['loop'] = {}
+  scn['permute_sets'] = False
+  t0 = 0.3
+  ops = [{'t': t0, 'op': 'call', 'id': 'c0', 'method': 'echo', 'payload': 'x', 'timeout': T,
+          'svc': {'delay': rng.choice([0.1, 0.3])}, 'via': 'dispatch'}]
+  t = t0 + block + rng.choice([0.005, 0.02, 0.05])
+  for i in range(1, rng.randint(2, 5)):
+    ops.append({'t': round(t, 4), 'op': 'call', 'id': 'c%d' % i, 'method': rng.choice(['echo', 'echo', 'risky']),
+                'payload': rng.choice(PAYLOADS), 'timeout': rng.choice([1.0, 2.0]),
+                'svc': {'delay': rng.choice([0.3, 0.6])}, 'via': 'dispatch'})
+    t += rng.choice([0.0, 0.01, 0.05])
+  scn['ops'] = ops
+  scn['faults'] = []
+  scn['directives'] = [{'ep': None, 'conn': 0, 'op': 'send', 'index': None, 'nth': 2, 'kind': 'block', 'arg': block}]
+  return scn
+
+
+def generate_open_race(rng, tier='quick', stack=None, **kw):
+  """Calls issued before the client has finished opening whose replies land
+  within microseconds of their (rounded) deadline, on a loop that serves timers
+  and I/O between callbacks: the dispatcher's own pre-open timer, the timeout
+  sink's timer and the reply race."""
+  stack = stack or rng.choice(['thrift', 'mux'])
+  scn = {'world': 'w_stack', 'stack': stack, 'balancer': rng.choice(['aperture', 'heap']), 'focus': 'general',
+         'iface': 'sim', 'client_id': None, 'eps': [{'latency': rng.choice([0.0005, 0.003]), 'mode': 'up'}]}
+  cfg = {'timeout': rng.choice([0.05, 0.1, 0.25]), 'open_timeout': 0,
+         'resurrector': {'initial_wait_interval': 5, 'max_wait_interval': 30, 'backoff_exponent': 1.5},
+         'members_dynamic': False, 'get_servers_delay': rng.choice([0, 0.005]), 'init_failures': 0}
+  if stack == 'thrift':
+    cfg['pool'] = {'min_watermark': rng.randint(0, 1), 'max_watermark': 2 ** 31 - 1, 'max_queue_len': 2 ** 31 - 1}
+  else:
+    cfg.update({'tag_base': None, 'answer_discards': True, 'adversarial': False})
+  if scn['balancer'] == 'aperture':
+    cfg['aperture'] = {'min_size': 1, 'max_size': 2 ** 31, 'min_load': 0.5, 'max_load': 2.0,
+                       'jitter_min_sec': 0, 'jitter_max_sec': 240}
+  scn['cfg'] = cfg
+  scn['net'] = {'chunk': 'none', 'jitter': 0.0, 'dns_multi': False}
+  scn['loop'] = {'batch_break': rng.choice([0.1, 0.3, 0.5])}
+  scn['permute_sets'] = False
+  ops = []
+  for i in range(rng.randint(1, 4)):
+    T = rng.choice([None, 0.03, 0.05, 0.1])
+    ops.append({'t': 0.0, 'op': 'call', 'id': 'c%d' % i, 'method': rng.choice(['echo', 'risky', 'poke']),
+                'payload': 'x', 'timeout': T,
+                'svc': {'near': 'rounded', 'off': rng.choice([-1e-5, -3e-6, -1e-6, -5e-7, -1e-7, 0.0, 1e-7])},
+                'via': rng.choice(['dispatch', 'proxy'])})
+  scn['ops'] = ops
+  scn['faults'] = []
+  scn['directives'] = []
   return scn
 
 
